@@ -1,2 +1,70 @@
-(* C20 — placeholder while the proofs are being written *)
-From DV Require Import Run_C20.
+(* C20 — Room synchronisation locks: exclusive, bounded, never lost.
+   Property theorems only: statement, exact, Print Assumptions.  Proofs: proofs/C20Scan.v, proofs/C20P.v.
+   Model: model/Lock.v (RoomLockService::start / acquire_lock, as the code is).
+   run_C20 / spec_C20 / known_C20: run/Run_C20.v — the functions the correspondence harness evaluates. *)
+From DV Require Import Run_C20 C20Scan C20P.
+Open Scope N_scope.
+
+(* The full property, as one statement about the functions the harness evaluates, plus the part
+   that no theorem here carries (starvation freedom under tokio's scheduling and under fair
+   releases: a bound on how often a waiting request can be overtaken). *)
+Definition overtaken (c r : N) (gss : list (list grant)) : nat :=
+  length (filter (fun g : grant => N.eqb (snd g) r && negb (N.eqb (fst (fst g)) c)) (concat gss)).
+Definition C20_no_starvation : Prop := forall max tr1 c r,
+  let s := state_after (init max) tr1 in
+  (exists p, In p (queue s) /\ p_c p = c /\ In r (p_rooms p)) ->
+  exists bound, forall tr2,
+    (forall k, ~ In (DropChan c k) tr2) ->
+    (forall g, In g (concat (run_from s tr2)) -> cr g <> (c, r)) ->
+    (overtaken c r (run_from s tr2) <= bound)%nat.
+Definition C20_full : Prop :=
+  (forall c, spec_C20 c (run_C20 c) = true) /\ C20_no_starvation.
+
+(* (1) for EVERY history of requests, releases (by anybody, of anything, repeated) and receiver
+   drops: the service's set of locked rooms has no duplicates, locked + free slots = the limit
+   (so the counter never underflows and never leaks), and no wake-up is lost: a request that waits
+   on a live reply channel is blocked only by a locked room or by the limit *)
+Theorem C20_counter_and_wakeup : forall max tr,
+  let s := state_after (init max) tr in
+  NoDup (locked s) /\ (length (locked s) + avail s = max)%nat /\ wake s.
+Proof. exact counter_and_wakeup. Qed.
+Print Assumptions C20_counter_and_wakeup.
+
+(* (2) for EVERY history: the "once per request" and "never lost" parts of the oracle hold on what
+   the model observes (grants never exceed requests per connection and room; a request of a
+   connection whose channels are all alive is, after every message, blocked only by a held room or
+   by the limit) — whatever the order in which the grants of one message are observed *)
+Theorem C20_once_never_lost_partial : forall c, snd (spec_pair c (run_C20 c)) = true.
+Proof. exact live_always. Qed.
+Print Assumptions C20_once_never_lost_partial.
+
+(* (3) progress: a released room that a live request waits for is granted again by that very
+   release (with (1) and (2): the invariant form of "eventually granted as long as granted rooms
+   are released"; the bound on overtaking, C20_no_starvation, is not proved) *)
+Theorem C20_release_progress_partial : forall s who r p,
+  memN r (locked s) = true -> In p (queue s) -> alive (dead s) p = true -> In r (p_rooms p) ->
+  snd (step s (Unlock who r)) <> [].
+Proof. exact release_progress. Qed.
+Print Assumptions C20_release_progress_partial.
+
+(* (4) the whole oracle (exclusive, bounded, once, never lost) holds on every history outside the
+   known class 1 = some release sent by a connection that does not hold the room frees a locked room *)
+Theorem C20_outside_known : forall c, known_C20 c = [] -> spec_C20 c (run_C20 c) = true.
+Proof. exact outside_known. Qed.
+Print Assumptions C20_outside_known.
+
+Theorem C20_exclusive_bounded_unless_foreign_release : forall c,
+  foreign_unlock c = false -> fst (spec_pair c (run_C20 c)) = true.
+Proof. exact safe_unless_foreign. Qed.
+Print Assumptions C20_exclusive_bounded_unless_foreign_release.
+
+(* (5) the property at full strength is refuted by the faithful model (and by the real service:
+   the witness is the first directed case of the harness): Unlock carries no owner *)
+Theorem C20_refuted : spec_C20 k1_witness (run_C20 k1_witness) = false /\ known_C20 k1_witness = [1%Z].
+Proof. exact refuted. Qed.
+Print Assumptions C20_refuted.
+
+Example C20_nonvacuous_ex : known_C20 ok_witness = [] /\
+  run_grants ok_witness = [[(1, 0, 7); (1, 0, 6)]; []; [(1, 0, 5)]; [(2, 0, 6)]; []; [(2, 0, 5)]; []; []; []].
+Proof. exact nonvacuous. Qed.
+Print Assumptions C20_nonvacuous_ex.
